@@ -108,3 +108,10 @@ Theorem C13_params_accepted_by_constructor : forall fp, In fp footprints ->
   forall k, In k (fp_params fp) -> In k (fp_ctor fp).
 Proof. exact params_accepted_by_constructor. Qed.
 Print Assumptions C13_params_accepted_by_constructor.
+
+(* the functions of this property whose Gallina counterpart is hand-written (or that only the oracles reach) still read, statement by statement, as they did when
+   the model was last validated against them (Gen/T9text.v regenerated from the source on every run; Proofs/Text_C13.v holds the validated text) *)
+From XV Require Gen.T9text Proofs.Text_C13.
+Theorem C13_hand_modelled_functions_read_as_validated : Text_C13.all_frozen.
+Proof. exact Text_C13.all_frozen_holds. Qed.
+Print Assumptions C13_hand_modelled_functions_read_as_validated.
